@@ -100,12 +100,14 @@ def main():
                 res[pid] = {"exit": c.returncode, "lines": [l[:300] for l in lines[:3]], "wall_s": round(time.time() - t0)}
             rec["checks"] = res
             rec["caught"] = any(r["exit"] == 1 for r in res.values())
+            if any(r["exit"] not in (0, 1) for r in res.values()):
+                rec["error"] = "a check could not run (infrastructure): result not recorded"
     finally:
         sh(["git", "-C", W, "checkout", "-q", "--", "."])
     rec["confirmed"] = bool(rec.get("compiles") and rec.get("demo_clean_rc") == 0 and rec.get("demo_mutated_rc", 0) != 0
                             and not rec.get("pinned_tests_failed"))
     d = os.path.join(ROOT, "seeded", sid)
-    if rec["confirmed"]:
+    if rec["confirmed"] and "error" not in rec:
         os.makedirs(d, exist_ok=True)
         for f in os.listdir(cand):
             if os.path.isfile(os.path.join(cand, f)) and f != "meta.json":
